@@ -207,6 +207,7 @@ func main() {
 	solveAll(obls, *out, timeout, seed, *jobs)
 	if *mode == "check" {
 		repoDir = *repo
+		sweepEnabled = *tier == "thorough" && *only == ""
 		code := report(*prop, *tier, seed, *verif, results, nil, nil, time.Since(start).Seconds(), genTime.Seconds(), nil, nil)
 		os.Exit(code)
 	}
